@@ -103,6 +103,35 @@ def main(run):
         for i in range(ncalls):
             yt, yp = gen_pair(rnd, kind, dict_input, requires_labels, labelset)
             w = rnd.choice(wrappers)
+            if rnd.random() < 0.03:
+                # error path: a call the metric cannot digest (prediction None / unhashable label); the caller catches whatever
+                # is raised and carries on - later values and the metric's own value must be unaffected
+                bad_pred = {"output": None} if not dict_input else {None: None}
+                try:
+                    fresh_probe = cls()
+                    fresh_probe.update(yt, bad_pred if dict_input else None)
+                    digestible = True
+                except Exception:
+                    digestible = False
+                if not digestible:
+                    try:
+                        w(yt, bad_pred)
+                    except Exception:
+                        run.count("failing-calls-survived")
+                    if not same(m.get(), before):
+                        # only count it against the library if a fresh metric's failing update leaves no residue either
+                        probe = cls()
+                        v0 = probe.get()
+                        try:
+                            probe.update(yt, bad_pred if dict_input else None)
+                        except Exception:
+                            pass
+                        if same(probe.get(), v0):
+                            run.violation("metric-state-changed", f"{name} call {i}: a failing call changed metric.get() from {before!r} to {m.get()!r}",
+                                          {"metric": name, "call": i, "failing_call": True})
+                            ok = False
+                            break
+                        before = m.get()     # river itself leaves a residue on a failing update: outside the wrapper's control
             if expl is not None and rnd.random() < 0.15:
                 expl.explain_one({"a": rnd.random(), "b": rnd.random()}, rnd.random())
             try:       # the oracle first: a pair the metric itself rejects is outside its domain and is not issued
